@@ -83,7 +83,7 @@ fn dispatch(name: &str, ctx: &Ctx, rep: &mut Report) -> bool {
         "monotone" => sweep(ctx, rep, &check_monotone),
         "criterion" => sweep(ctx, rep, &check_replay),
         "greedy" => sweep(ctx, rep, &check_replay),
-        "safety" => sweep(ctx, rep, &check_safety),
+        "safety" => { sweep(ctx, rep, &check_safety); long_histories(ctx, rep); }
         "single_exact" => sweep_single(ctx, rep),
         "agree" => agree(ctx, rep),
         "scale" => scale(ctx, rep),
@@ -151,7 +151,8 @@ fn oracle_cases(ctx: &Ctx, count: usize, maxn: u64, maxn_prim: u64) -> Vec<AlgoC
         let fam = if rng.below(3) == 0 { ["lattice", "duppoints", "neartie", "allequal"][rng.below(4) as usize] } else { fam };
         // single / complete never add: values up to and including the largest finite one are in domain
         let fam = if method <= 1 && rng.below(12) == 0 { "maxmag" } else { fam };
-        let v = matrix_f64(&mut rng, n as usize, fam, wide);
+        let mut v = matrix_f64(&mut rng, n as usize, fam, wide);
+        if rng.below(5) == 0 && fam != "maxmag" { rescale(&mut rng, &mut v, wide); }
         out.push(AlgoCase { algo, method, wide, n, bits: to_bits(&v, wide), family: fam });
     }
     out
@@ -172,6 +173,15 @@ fn extra_cases(ctx: &Ctx) -> Vec<AlgoCase> {
         // the generic algorithm with every method (its initial scan and heap at these sizes)
         for method in 0..7u8 { push(&mut rng, 3, method, n, "uniform"); }
         for method in [1u8, 2, 4] { push(&mut rng, 2, method, n, "uniform"); }
+    }
+    // step counts just above a power of two (n - 1 = 2^k + 1) and geometric inputs, whose raw merge
+    // order is far from sorted: hand-written merge / run sorts have their corner cases there
+    let plus2: &[u64] = if ctx.big { &[34, 66, 130, 258, 514, 1026] } else { &[34, 66, 130, 258] };
+    for &n in plus2 {
+        for fam in ["collinear", "rampdips", "euclid"] {
+            for algo in [1u8, 0, 2] { push(&mut rng, algo, 0, n, fam); }
+            if n <= 258 { push(&mut rng, 2, 1, n, fam); push(&mut rng, 2, 2, n, fam); }
+        }
     }
     if ctx.prop == "C02" || ctx.prop == "C12" {
         // clusters of more than 1625 members: |AB|^3 >= 2^32 (only the recurrence reference is used there)
@@ -400,7 +410,17 @@ fn sweep_single(ctx: &Ctx, rep: &mut Report) {
             rep.violation(format!("C04 violated: {} :: {}", v, shorten(&c)));
         }
         if c.n <= 600 {
-            // the same input through the `_with` form on objects reused across the sweep
+            // the same input through the `_with` form on objects reused across the sweep; before an
+            // mst / linkage call the shared state is first used for a single-linkage call on a
+            // matrix whose entries are all far BELOW the real ones (-1e9), for at least as many
+            // observations: whatever scratch value survives a reset is then smaller than every
+            // real key and shows in the heights
+            if c.algo <= 1 && c.n >= 2 {
+                let pn = c.n + (c.key() % 3);
+                let poison = vec![-1e9f64; (pn * (pn - 1) / 2) as usize];
+                let pb = to_bits(&poison, c.wide);
+                let _ = if c.wide { run_reused::<f64>(&mut st64, &mut d64, 1, 0, pn, &pb) } else { run_reused::<f32>(&mut st32, &mut d32, 1, 0, pn, &pb) };
+            }
             let out2 = if c.wide { run_reused::<f64>(&mut st64, &mut d64, c.algo, 0, c.n, &c.bits) } else { run_reused::<f32>(&mut st32, &mut d32, c.algo, 0, c.n, &c.bits) };
             rep.evaluations += 1;
             if let Some(v) = check_single_exact(&c, &out2, c.n <= 60) {
@@ -409,6 +429,19 @@ fn sweep_single(ctx: &Ctx, rep: &mut Report) {
         }
         if c.n == 4 { rep.sample(format!("{} -> {}", c.describe(), join(&tokens(&out), " "))); }
     }
+}
+
+/// Move a matrix to another place on the magnitude axis (a power of two, so the structure of the
+/// input - order, ties, ratios - is untouched): an absolute tolerance or threshold anywhere in the
+/// code shows up at small or large magnitudes only.
+fn rescale(rng: &mut Rng, v: &mut Vec<f64>, wide: bool) -> i32 {
+    let sc = scale_of(v);
+    if !(1e-6..=1e6).contains(&sc) { return 0; }
+    let ks: &[i32] = if wide { &[-60, -200, -30, 40, 150, -100] } else { &[-30, -20, 20, -25] };
+    let k = ks[rng.below(ks.len() as u64) as usize];
+    let f = 2f64.powi(k);
+    for x in v.iter_mut() { *x *= f; }
+    k
 }
 
 // ------------------------------------------------------------------ C06
@@ -456,7 +489,8 @@ fn agree(ctx: &Ctx, rep: &mut Report) {
         let kind = rng.below(4);
         // long nearest-neighbour chains need enough points
         let n = if kind == 3 && wide { n.max(rng.range(66, if ctx.big { 260 } else { 140 }) as usize) } else { n };
-        let v0 = separated_matrix(&mut rng, n, kind);
+        let mut v0 = separated_matrix(&mut rng, n, kind);
+        if i % 3 == 1 { rescale(&mut rng, &mut v0, wide); }
         let bits = to_bits(&v0, wide);
         let base = AlgoCase { algo: 0, method, wide, n: n as u64, bits, family: "separated" };
         let v = vals_of(&base);
@@ -679,7 +713,8 @@ fn permute(ctx: &Ctx, rep: &mut Report) {
         let n = if wide && i % 9 == 4 { rng.range(64, if ctx.big { 300 } else { 150 }) as usize }
                 else if wide && (i % 9 == 7 || i % 9 == 1) { if i % 2 == 0 { boundary_size(&mut rng, 257).max(3) as usize } else { rng.range(130, if ctx.big { 400 } else { 280 }) as usize } }
                 else { rng.range(3, cap) as usize };
-        let kind = rng.below(4); let v0 = separated_matrix(&mut rng, n, kind);
+        let kind = rng.below(4); let mut v0 = separated_matrix(&mut rng, n, kind);
+        if i % 3 == 1 { rescale(&mut rng, &mut v0, wide); }
         let bits = to_bits(&v0, wide);
         let probe = AlgoCase { algo: 0, method, wide, n: n as u64, bits: bits.clone(), family: "separated" };
         let v = vals_of(&probe);
@@ -820,13 +855,15 @@ fn cost(ctx: &Ctx, rep: &mut Report) {
     let mut worst = 0.0f64;
     let mut cases: Vec<AlgoCase> = ctx.cases.iter().filter(|c| c.method <= 4 && c.algo <= 2 && c.n >= 8).cloned().collect();
     for &n in &sizes {
-        for fam in ["sorted", "revsorted", "allequal", "lattice", "collinear", "uniform", "neartie", "duppoints", "euclid", "staircase"] {
+        for fam in ["sorted", "revsorted", "allequal", "lattice", "collinear", "uniform", "neartie", "duppoints", "euclid", "staircase", "hugechain", "rampdips"] {
             for method in 0..5u8 { for &algo in &[0u8, 2, 1] {
                 if !accepts(algo, method) { continue; }
+                // next to the largest finite value Ward's squares overflow (outside its domain)
+                if fam == "hugechain" && method == 4 { continue; }
                 if algo == 1 && fam != "uniform" && fam != "lattice" { continue; }
                 let wide = rng.below(4) != 0;
                 let v = matrix_f64(&mut rng, n as usize, fam, wide);
-                cases.push(AlgoCase { algo, method, wide, n, bits: to_bits(&v, wide), family: if fam == "sorted" { "sorted" } else if fam == "revsorted" { "revsorted" } else if fam == "staircase" { "staircase" } else { "other" } });
+                cases.push(AlgoCase { algo, method, wide, n, bits: to_bits(&v, wide), family: if fam == "sorted" { "sorted" } else if fam == "revsorted" { "revsorted" } else if fam == "staircase" { "staircase" } else if fam == "hugechain" { "hugechain" } else { "other" } });
             }}
         }
     }
@@ -848,7 +885,47 @@ fn cost(ctx: &Ctx, rep: &mut Report) {
 }
 
 // ------------------------------------------------------------------ C08
+/// Long histories of the SAME entry point on one LinkageState / Dendrogram (what a caller that
+/// clusters many matrices in a loop does): anything that accumulates from call to call - counters,
+/// sizes, capacities - needs dozens of calls to show. Every call is compared with a fresh call.
+fn long_histories(ctx: &Ctx, rep: &mut Report) {
+    let mut rng = Rng::new(ctx.seed ^ 0x10C8);
+    let rounds = if ctx.big { 160 } else { 90 };
+    for (algo, method) in [(1u8, 0u8), (0, 0), (0, 2), (2, 1), (2, 4), (3, 5), (3, 0), (4, 3), (0, 6)] {
+        for &wide in &[true, false] {
+            for &n in &[70u64, 24, 5] {
+                if algo == 4 && n > 30 { continue; }
+                let mut st64: kodama::LinkageState<f64> = kodama::LinkageState::new();
+                let mut d64: kodama::Dendrogram<f64> = kodama::Dendrogram::new(0);
+                let mut st32: kodama::LinkageState<f32> = kodama::LinkageState::new();
+                let mut d32: kodama::Dendrogram<f32> = kodama::Dendrogram::new(0);
+                for k in 0..rounds {
+                    let fam = ["uniform", "euclid", "lattice"][k % 3];
+                    let v = matrix_f64(&mut rng, n as usize, fam, wide);
+                    let bits = to_bits(&v, wide);
+                    tick(&ctx.progress, &format!("long history call {} {} {} n={}", k, ALGO_NAMES[algo as usize], METHOD_NAMES[method as usize], n));
+                    let warm = if wide { run_reused::<f64>(&mut st64, &mut d64, algo, method, n, &bits) } else { run_reused::<f32>(&mut st32, &mut d32, algo, method, n, &bits) };
+                    let fresh = run_fresh_w(wide, algo, method, n, &bits);
+                    rep.evaluations += 1;
+                    let same = match (&warm, &fresh) {
+                        (Outcome::Ok { steps: a, obs: oa, .. }, Outcome::Ok { steps: b, obs: ob, .. }) => a == b && oa == ob,
+                        (Outcome::Panic(..), Outcome::Panic(..)) => true,
+                        _ => false,
+                    };
+                    if !same {
+                        rep.violation(format!("{} violated: call #{} of {} consecutive {}_with {} {} calls (n={}, new matrix each call) on one LinkageState/Dendrogram differs from the same call on fresh objects: reused={} fresh={}",
+                            ctx.prop, k + 1, rounds, ALGO_NAMES[algo as usize], METHOD_NAMES[method as usize], if wide { "f64" } else { "f32" }, n,
+                            join(&tokens(&warm), " ").chars().take(200).collect::<String>(), join(&tokens(&fresh), " ").chars().take(200).collect::<String>()));
+                        break;
+                    }
+                }
+            }
+        }
+    }
+}
+
 fn reuse(ctx: &Ctx, rep: &mut Report) {
+    long_histories(ctx, rep);
     let mut rng = Rng::new(ctx.seed ^ 0xC08);
     let count = if ctx.big { 4000 } else { 600 };
     let mut all: Vec<(History, Vec<Outcome>)> = vec![];
@@ -1153,4 +1230,66 @@ fn shape_sweep(rep: &mut Report, seed: u64, big: bool) {
             }
         }
     }
+}
+
+// ------------------------------------------------------------------ C12: the band next to sqrt(MAX)
+/// One case per process (a call that does not return must not take the others with it):
+/// entries whose squares are finite but whose pairwise sums of squares overflow
+/// (0.63 .. 0.90 times sqrt(MAX)), for the three methods that work on squares, and the same
+/// shape at a safe magnitude as a control. Prints `BAND <description> :: <outcome>`.
+pub fn band(opt: &HashMap<String, String>) -> i32 {
+    let idx = opt_u64(opt, "index", 0) as usize;
+    let mut cases: Vec<(bool, u8, u8, bool)> = vec![];
+    for &wide in &[true, false] { for &method in &[4u8, 5, 6] { for algo in 0u8..5 {
+        if !accepts(algo, method) { continue; }
+        for &control in &[false, true] { cases.push((wide, method, algo, control)); }
+    }}}
+    if opt.contains_key("count") { println!("{}", cases.len()); return 0; }
+    let (wide, method, algo, control) = cases[idx % cases.len()];
+    let top = if wide { f64::MAX.sqrt() } else { (f32::MAX as f64).sqrt() };
+    let scale = if control { if wide { 1e150 } else { 1e15 } } else { top };
+    let fr = [0.90, 0.81, 0.72, 0.63, 0.855, 0.765];
+    let v: Vec<f64> = fr.iter().map(|f| f * scale).collect();
+    let desc = format!("{} {} {} n=4 entries={}x[0.90,0.81,0.72,0.63,0.855,0.765] ({})",
+        ALGO_NAMES[algo as usize], METHOD_NAMES[method as usize], if wide { "f64" } else { "f32" },
+        if control { if wide { "1e150" } else { "1e15" } } else { "sqrt(MAX)" }, if control { "control" } else { "band" });
+    if opt.contains_key("describe") { println!("BAND {}", desc); return 0; }
+    tick_global(&desc);
+    let out = run_fresh_w(wide, algo, method, 4, &to_bits(&v, wide));
+    let outcome = match &out {
+        Outcome::Panic(k, m) => format!("panic {} {}", k, m),
+        Outcome::Ok { steps, .. } => {
+            let c = AlgoCase { algo, method, wide, n: 4, bits: vec![], family: "band" };
+            if steps.iter().all(|s| height(&c, s).is_finite()) { "ok-finite".to_string() } else { "nonfinite-height".to_string() }
+        }
+    };
+    println!("BAND {} :: {}", desc, outcome);
+    0
+}
+
+// ------------------------------------------------------------------ C15 / C17: thousands of observations through the C API
+/// The Rust side of `driver --big <seed>`: the same matrices (64-bit LCG, integer arithmetic),
+/// `kodama::linkage` for every method, the digest the C driver computes from what the C API returns
+/// (float results widened exactly, observation count = the n passed in).
+pub fn capibig(opt: &HashMap<String, String>) -> i32 {
+    let seed = opt_u64(opt, "seed", 1);
+    fn lcg(s: &mut u64) -> u64 { *s = s.wrapping_mul(6364136223846793005).wrapping_add(1442695040888963407); *s }
+    fn fnv(mut h: u64, v: u64) -> u64 { for k in 0..8 { h ^= (v >> (8 * k)) & 0xff; h = h.wrapping_mul(0x100000001b3); } h }
+    for (si, &n) in [2048u64, 2049, 2311].iter().enumerate() { for mi in 0..7u8 { for wide in [true, false] {
+        let len = (n * (n - 1) / 2) as usize;
+        let mut st = seed.wrapping_mul(1000003).wrapping_add((si * 100 + mi as usize * 10 + wide as usize) as u64);
+        let vals: Vec<f64> = (0..len).map(|_| 1.0 + (lcg(&mut st) >> 12) as f64 / 4503599627370496.0).collect();
+        let bits = to_bits(&vals, wide);
+        tick_global(&format!("capibig {} {} n={}", METHOD_NAMES[mi as usize], if wide { "double" } else { "float" }, n));
+        let out = run_fresh_w(wide, 0, mi, n, &bits);
+        let steps = match out { Outcome::Ok { steps, .. } => steps, Outcome::Panic(k, m) => { println!("BIG {} {} {} panic {} {}", METHOD_NAMES[mi as usize], if wide { "double" } else { "float" }, n, k, m); continue; } };
+        let mut h = 0xcbf29ce484222325u64;
+        h = fnv(h, n); h = fnv(h, steps.len() as u64);
+        for s in &steps {
+            let b = if wide { s.bits } else { (f32::from_bits(s.bits as u32) as f64).to_bits() };
+            h = fnv(h, s.c1 as u64); h = fnv(h, s.c2 as u64); h = fnv(h, b); h = fnv(h, s.size as u64);
+        }
+        println!("BIG {} {} {} {}", METHOD_NAMES[mi as usize], if wide { "double" } else { "float" }, n, h);
+    }}}
+    0
 }
